@@ -115,7 +115,14 @@ fn decode(tape: &[u32]) -> Case {
     let mut t = Tape::new(tape);
     let obj = OBJS[t.pick(7)];
     let rank3 = t.bool();
-    let dims = if rank3 { vec![t.usize(1, 3), t.usize(1, 3), t.usize(1, 3)] } else { vec![t.usize(1, 16)] };
+    // mostly small; one case in six is large (vectors up to 130 elements, tensors up to 4 x 6 x 6)
+    let large = t.chance(1, 6);
+    let dims = match (rank3, large) {
+        (true, false) => vec![t.usize(1, 3), t.usize(1, 3), t.usize(1, 3)],
+        (true, true) => vec![t.usize(1, 4), t.usize(2, 6), t.usize(2, 6)],
+        (false, false) => vec![t.usize(1, 16)],
+        (false, true) => vec![t.usize(17, 130)],
+    };
     let clamp = match t.pick(9) {
         0 => None,
         1 => Some((-1.0, 1.0)),
@@ -326,7 +333,7 @@ impl Prop for C06 {
         t.pick(1_000_000, 100_000_000)
     }
     fn rule(&self) -> String {
-        "tape-decoded (objective of 7, clamp in {none, [-1,1], lo=hi, positive interval excluding 0, negative interval excluding 0, wide, (-inf, x], [x, +inf), (-inf, +inf)}, rank: vector 1..16 or c x h x w <= 3x3x3, content class: interior / one-hot targets / boundaries (exact 0, 1, eps, 1-eps, eps +- 2 ulp, denormals, 1e-7 multiples) / p == t / mixed for the probability objectives; O(1), |v| <= 1e4, equal-or-1-ulp-apart, dyadic, mixed magnitudes for the regression objectives). Oracle: documented formulas in f64, finiteness, numerical derivative of the reference loss (AE, MSE, BCE, KL), 3-D == flat bitwise, clamped == clamp(unclamped) bitwise. Non-trivial: >= 2 elements and (a boundary/equal element, or a clamp active on some and inactive on other components, or rank 3). Distinct = (objective, shape, clamp bits, content class, boundary flag, seed mod 64).".into()
+        "tape-decoded (objective of 7, clamp in {none, [-1,1], lo=hi, positive interval excluding 0, negative interval excluding 0, wide, (-inf, x], [x, +inf), (-inf, +inf)}, rank: vector 1..16 (1/6: 17..130) or c x h x w <= 3x3x3 (1/6: up to 4x6x6), content class: interior / one-hot targets / boundaries (exact 0, 1, eps, 1-eps, eps +- 2 ulp, denormals, 1e-7 multiples) / p == t / mixed for the probability objectives; O(1), |v| <= 1e4, equal-or-1-ulp-apart, dyadic, mixed magnitudes for the regression objectives). Oracle: documented formulas in f64, finiteness, numerical derivative of the reference loss (AE, MSE, BCE, KL), 3-D == flat bitwise, clamped == clamp(unclamped) bitwise. Non-trivial: >= 2 elements and (a boundary/equal element, or a clamp active on some and inactive on other components, or rank 3). Distinct = (objective, shape, clamp bits, content class, boundary flag, seed mod 64).".into()
     }
     fn assumptions(&self) -> Vec<String> {
         vec![
